@@ -1,2 +1,5 @@
 local unused_t1 = 1
 print(undef_t1)
+---@class
+local an_t1 = 1
+print(an_t1)
